@@ -59,6 +59,7 @@ type Engine struct {
 	obsVals   []obs
 	complete  bool // completion mode: never queue alternatives
 	globals   map[*ssa.Global]*Object
+	inited    map[*ssa.Package]bool
 	curFn     []*ssa.Function
 	outputs   int
 	known     []KnownFinding
